@@ -81,6 +81,11 @@ func rulePrefixRoundTrip(c *Ctx, rule string) {
 				if fa, ok := st.Addr.(*ssa.FieldAddr); ok && fieldName(fa.X.Type(), fa.Field) == "AppTypePrefix" {
 					if s, ok := constStringVal(st.Val); ok {
 						prefixes[s] = true
+					} else {
+						// a computed prefix must come from the canonicaliser the release API uses too
+						call, _ := callOf(st.Val)
+						c.ob(rule, fk, "a computed app-type prefix is GetAppTypePrefix(kind)", st, call != nil && nameMatch(calleeName(call), utilPkg+".GetAppTypePrefix"),
+							"FormatKey stores either one of the prefix constants or the result of GetAppTypePrefix: key writer and release API canonicalise owner kinds with the same function")
 					}
 				}
 			}
